@@ -163,6 +163,12 @@ struct Later {
     changes: Vec<(u16, Option<AttrKind>)>,
     emits: Vec<EmitDef>,
     pivot: Option<Pivot>,
+    /// selects an endpoint that disappears from the node together with the later changes: the
+    /// concrete event paths of the subscription that point to it FAIL from then on (a status each
+    /// in the later report). Ignored if a concrete attribute path points to that endpoint or the
+    /// node has a single endpoint.
+    #[serde(default)]
+    hide: Option<u16>,
 }
 
 #[derive(Debug, Clone, Copy, PartialEq, Eq, Serialize, Deserialize)]
@@ -857,7 +863,9 @@ struct LaterWorld {
     all: bool,
     changed: BTreeSet<Key>,
     emits: Vec<EmitDef>,
+    /// the state after the changes; its `node` lacks the hidden endpoint
     st: State,
+    hidden: Option<u16>,
 }
 
 struct World {
@@ -1005,11 +1013,17 @@ fn materialize(case: &C14Case) -> World {
             }
             let changed: BTreeSet<Key> = if l.all { keys.iter().copied().collect() } else { notify.iter().copied().collect() };
             let mut emits2 = l.emits.clone();
+            let hidden = l.hide.filter(|_| st2.node.len() >= 2).map(|sel| st2.node[pick(sel, st2.node.len())].id).filter(|ep| !case.attrs.as_ref().is_some_and(|ps| ps.iter().any(|p| !p.is_wildcard() && p.endpoint == Some(*ep))));
+            if let Some(ep) = hidden {
+                st2.node.retain(|e| e.id != ep);
+                emits2.retain(|e| e.ep != ep);
+                notes.push(format!("endpoint {ep} disappears with the later changes"));
+            }
             if let Some(p) = l.pivot {
                 aim(case, &mut st2, &mut emits2, p, Some((&changed, emits.len() as u64 + 1, emits.len())), 1, &mut notes);
             }
             let set: Vec<(Key, Value)> = st2.values.iter().filter(|(k, v)| st.values.get(*k) != Some(*v)).map(|(k, v)| (*k, v.clone())).collect();
-            Some(LaterWorld { set, notify, all: l.all, changed, emits: emits2, st: st2 })
+            Some(LaterWorld { set, notify, all: l.all, changed, emits: emits2, st: st2, hidden })
         }
         _ => None,
     };
@@ -1278,6 +1292,9 @@ fn run_case(case: &C14Case, w: &World) -> Result<Obs, Case> {
             for (n, e) in l.emits.iter().enumerate() {
                 rig.emit_event(e.ep, e.cl, e.ev, e.prio, event_payload(e.size as usize, e.ep, e.ev, w.emits.len() + n));
             }
+            if let Some(ep) = l.hidden {
+                node.set_hidden(&[ep]);
+            }
             if l.all {
                 rig.notify_all_changed();
             }
@@ -1382,6 +1399,7 @@ fn check_messages(ph: &Phase<'_>, out: &ReadOutcome, obs: &Obs, stats: &mut Stat
         }
         if DEBUG.load(std::sync::atomic::Ordering::Relaxed) {
             eprintln!("[debug] {what} message {i} ({} octets): attr reports {:?} event reports {:?} more={} suppress={} reports end at {}", raw.len(), l.attr_items, l.event_items, l.more, l.suppress, l.reports_end);
+            eprintln!("[debug]   octets after the last report: {}", vh::util::hex(&raw[l.reports_end.min(raw.len())..]));
         }
         layouts.push(l);
     }
@@ -1693,6 +1711,10 @@ fn boundary_stats(ph: &Phase<'_>, out: &ReadOutcome, layouts: &[Layout], stats: 
                     stats.near_boundary = true;
                     stats.label(format!("boundary:next-report-would-end-{over}-above"));
                 }
+                if next.attr_items.is_empty() && out.events.iter().find(|e| e.chunk == i + 1).is_some_and(|e| matches!(e.body, EventBody::Status(_))) && end + 3 + *len as i64 > b {
+                    // an event status did not fit behind the reports of this message
+                    stats.label("boundary:event-status-moved-to-next-message");
+                }
                 if over <= 0 {
                     // the next report would have fitted below the boundary: either room was needed
                     // for closing / opening arrays or the device packs differently
@@ -1856,8 +1878,11 @@ fn check(case: &C14Case) -> Case {
             }
             let ax = case.attrs.as_ref().map(|p| expect_attrs(&lw.st, p, &case.dv_filters, Some(&lw.changed), 1));
             let ex = case.events.as_ref().map(|p| {
-                let mut e = expect_events(&lw.st.node, p, case.event_min, &numbered_later, Some(&obs.stored_later));
-                e.statuses.clear();
+                // concrete event paths fail in a later report only if their endpoint has disappeared
+                let e = expect_events(&lw.st.node, p, case.event_min, &numbered_later, Some(&obs.stored_later));
+                if !e.statuses.is_empty() {
+                    stats.label("report:failing-event-paths(endpoint-disappeared)");
+                }
                 e
             });
             let (mut ax, mut ex) = (ax, ex);
@@ -2092,6 +2117,8 @@ struct RawReq {
     event_min: Option<u16>,
     fabric_filtered: bool,
     emits: Vec<(u16, u16, u8, u16)>,
+    /// failing concrete event paths (reads only): (kind, endpoint sel, cluster sel, position)
+    bad_events: Vec<(u8, u16, u16, u16)>,
 }
 
 fn raw_req() -> impl Strategy<Value = RawReq> {
@@ -2102,14 +2129,33 @@ fn raw_req() -> impl Strategy<Value = RawReq> {
         prop_oneof![3 => Just(None), 1 => (0u16..=12).prop_map(Some)],
         any::<bool>(),
         prop_oneof![3 => raw_emits(0..=6), 2 => raw_emits(7..=24)],
+        prop_oneof![3 => Just(vec![]), 2 => prop::collection::vec((0u8..4, any::<u16>(), any::<u16>(), any::<u16>()), 1..=6)],
     )
-        .prop_map(|(attr_paths, event_paths, dv, event_min, fabric_filtered, emits)| RawReq { attr_paths, event_paths, dv, event_min, fabric_filtered, emits })
+        .prop_map(|(attr_paths, event_paths, dv, event_min, fabric_filtered, emits, bad_events)| RawReq { attr_paths, event_paths, dv, event_min, fabric_filtered, emits, bad_events })
 }
 
 fn build(node: Vec<EpDef>, r: RawReq, who: Who, kind: Kind, pivot: Option<Pivot>, later: Option<Later>, sched: Option<u64>, seed: u32) -> C14Case {
     let absent_ok = kind == Kind::Read;
     let mut attrs = r.attr_paths.map(|ps| ps.iter().map(|p| resolve(&node, p, false, absent_ok)).collect::<Vec<_>>());
     let events = r.event_paths.map(|ps| ps.iter().map(|p| resolve(&node, p, true, absent_ok)).collect::<Vec<_>>());
+    let mut events = events;
+    if kind == Kind::Read && !r.bad_events.is_empty() {
+        // failing concrete event paths, mixed kinds, anywhere among the other event paths
+        let list = events.get_or_insert_with(Vec::new);
+        for (k, a, b, pos) in &r.bad_events {
+            let ep = &node[pick(*a, node.len())];
+            let cl = &ep.clusters[pick(*b, ep.clusters.len())];
+            let p = match k {
+                0 => Path::concrete(0x4321, cl.id, cl.events.first().copied().unwrap_or(0)),
+                1 => Path::concrete(ep.id, 0x0909, 1),
+                2 => Path::concrete(0x4322 + (*a % 3), 0xFFF1_0909, 0x80),
+                // unknown event id on an existing cluster (a status is optional)
+                _ => Path::concrete(ep.id, cl.id, 0x3333),
+            };
+            let at = pick(*pos, list.len() + 1);
+            list.insert(at, p);
+        }
+    }
     if attrs.is_none() && events.is_none() {
         attrs = Some(vec![Path::new(None, None, None)]);
     }
@@ -2144,11 +2190,25 @@ fn report_case() -> impl Strategy<Value = C14Case> {
         prop::collection::vec((any::<u16>(), prop_oneof![1 => Just(None), 2 => attr_kind().prop_map(Some)]), 0..=6),
         raw_emits(0..=8),
         pivot(),
+        prop_oneof![2 => Just(None), 1 => (any::<u16>(), 1usize..=5).prop_map(Some)],
     );
-    (node(), raw_req(), later, pivot(), sched(), any::<u32>()).prop_map(|(node, r, (all, changes, raw_later, lpivot), pivot, sched, seed)| {
+    (node(), raw_req(), later, pivot(), sched(), any::<u32>()).prop_map(|(node, r, (all, changes, raw_later, lpivot, hide), pivot, sched, seed)| {
         let emits = emit_defs(&node, &raw_later);
-        let later = Later { all, changes, emits, pivot: lpivot };
-        build(node, r, Who::Case, Kind::Report, pivot, Some(later), sched, seed)
+        let later = Later { all, changes, emits, pivot: lpivot, hide: hide.map(|h| h.0) };
+        let mut c = build(node, r, Who::Case, Kind::Report, pivot, Some(later), sched, seed);
+        if let Some((sel, k)) = hide {
+            // subscribe to k existing concrete events of the endpoint that will disappear
+            let ep = &c.node[pick(sel, c.node.len())];
+            let evs: Vec<Path> = ep.clusters.iter().flat_map(|cl| cl.events.iter().map(move |e| Path::concrete(ep.id, cl.id, *e))).collect();
+            if !evs.is_empty() && c.node.len() >= 2 {
+                let list = c.events.get_or_insert_with(|| vec![Path::new(None, None, None)]);
+                for i in 0..k {
+                    let at = (i * 2).min(list.len());
+                    list.insert(at, evs[i % evs.len()]);
+                }
+            }
+        }
+        c
     })
 }
 
@@ -2250,10 +2310,30 @@ fn sweep_cases(thorough: bool) -> Vec<C14Case> {
             c.event_min = Some(2);
             out.push(c);
             // 6: a later report of a subscription (everything changed, new events)
-            let later = Later { all: true, changes: vec![(0x3000, Some(AttrKind::Scalar(77)))], emits: vec![ev(120, 1), ev(30, 2)], pivot: p };
+            let later = Later { all: true, changes: vec![(0x3000, Some(AttrKind::Scalar(77)))], emits: vec![ev(120, 1), ev(30, 2)], pivot: p, hide: None };
             out.push(base(Kind::Report, Who::Case, Some(vec![all]), Some(vec![all]), emits[..2].to_vec(), None, Some(later)));
             // 7: attributes followed by an (empty) event report array
             out.push(base(Kind::Read, Who::Case, Some(vec![all]), Some(vec![all]), vec![], p, None));
+            // 8: attribute reports ending delta octets from the boundary, followed by the statuses
+            // of k failing concrete event paths (non-existent endpoint / cluster), k = 1, 3, 6;
+            // no event is stored, so the last resizable unit is the last attribute
+            if sel == 0xffff {
+                let bad = [Path::concrete(0x4321, 0x06, 0), Path::concrete(0, 0x0909, 1), Path::concrete(0x4322, 0xFFF1_FC01, 0x80), Path::concrete(1, 0x0300, 0), Path::concrete(0x4321, 0x06, 0), Path::concrete(7, 0x06, 0)];
+                for k in [1usize, 3, 6] {
+                    let mut evp = bad[..k].to_vec();
+                    if k > 1 {
+                        evp.insert(1, all);
+                    }
+                    out.push(base(Kind::Read, Who::Case, Some(vec![all]), Some(evp.clone()), vec![], p, None));
+                    out.push(base(Kind::Read, Who::Pase, Some(vec![Path::new(Some(1), None, None)]), Some(evp), vec![], p, None));
+                    // 9: the same in a later subscription report: endpoint 1 disappears with the
+                    // changes, the k concrete event paths pointing to it fail from then on
+                    let mut evp = vec![Path::concrete(1, 0x06, 0); k];
+                    evp.insert(k / 2, all);
+                    let later = Later { all: true, changes: vec![], emits: vec![], pivot: p, hide: Some(0xffff) };
+                    out.push(base(Kind::Report, Who::Case, Some(vec![all]), Some(evp), vec![], None, Some(later)));
+                }
+            }
         }
     }
     out
